@@ -13,6 +13,7 @@ def pairs : List Nat → List (Nat × Nat)
 def handle (ws : List String) : String :=
   match ws with
   | "w" :: _ => FuelVerif.Drv.C24.handle ws
+  | "mc" :: _ => FuelVerif.Drv.C24.handle ws
   | "step" :: rest =>
     match rest.mapM (·.toNat?) with
     | some (opc :: sspB :: spB :: hpB :: prevHpB :: fpB :: sspA :: spA :: balLo :: balHi :: txLo :: txHi :: csLo :: csHi :: n :: ch) =>
